@@ -247,10 +247,11 @@ def model_case(rng, t, opt):
             seen.add(rel)
             q = rng.random()
             rels = rel.decode("ascii")
-            if q < 0.08:
-                # a directory (with something in it) where the archived file belongs: it stays
+            if q < 0.12:
+                # a directory (empty, or with something in it) where the archived file belongs: it stays
                 pre.append((rels, "dir", None, 0o755))
-                pre.append((rels + "/kept", "file", b"inside %d" % len(pre), 0o644))
+                if rng.random() < 0.5:          # (an empty directory stays as well: nothing the tool tries on the way may remove it)
+                    pre.append((rels + "/kept", "file", b"inside %d" % len(pre), 0o644))
             elif q < 0.7:
                 pre.append((rels, "file", b"old contents %d" % len(pre), 0o644))
             else:
